@@ -30,14 +30,17 @@ Fixpoint lin_to_phys (a1 y : vec) : vec :=
 (* ---------------------------------------------------------------- scale factors *)
 
 (* per output variable: ref0, ref, res_ref, entrywise (scalars already broadcast) *)
-Record oscal := mkoscal { os_ref0 : vec; os_ref : vec; os_res : option vec; os_explicit : bool }.
+Record oscal := mkoscal { os_ref0 : vec; os_ref : vec; os_res : option vec; os_explicit : bool;
+                          os_ref_decl : vec }.
 
-(* ExplicitComponent.add_output (also IndepVarComp): res_ref defaults to ref; ImplicitComponent: no residual
-   scaling unless res_ref is given *)
+(* ExplicitComponent.add_output (also IndepVarComp) stores res_ref = ref when res_ref is not given — the ref
+   of the add_output call itself (os_ref_decl), which a later set_output_solver_options(ref=...) does not
+   update; ImplicitComponent: no residual scaling unless res_ref is given.  os_ref0 / os_ref / os_res are the
+   effective values (add_output arguments overridden by set_output_solver_options). *)
 Definition res_scale (s : oscal) : vec :=
   match os_res s with
   | Some r => r
-  | None => if os_explicit s then os_ref s else map (fun _ => 1) (os_ref s)
+  | None => if os_explicit s then os_ref_decl s else map (fun _ => 1) (os_ref s)
   end.
 
 (* output vectors: a0 = ref0, a1 = ref - ref0; residual vectors: 0, res_ref *)
@@ -60,7 +63,7 @@ Definition comp_ins (c : comp) : list inp :=
   match c with CIvc _ => [] | CExp ins _ => ins | CImp ins _ => ins end.
 
 Definition scaling_arrays (s : spec) (sc : list oscal) : val :=
-  let dflt := mkoscal [] [] None true in
+  let dflt := mkoscal [] [] None true [] in
   let ins := flat_map comp_ins s in
   VL [ vqs (flat_map out_a1 sc); vqs (flat_map out_a0 sc); vqs (flat_map res_scale sc);
        vqs (flat_map (fun i => in_scale1 (nth (in_src i) sc dflt) (in_idx i) (in_fac i)) ins);
